@@ -70,6 +70,16 @@ def generate(rng, tier, mult):
             if n > 0:
                 ops.append("write_sum z%d %s" % (n, num(n)))
         scripts.append({"ops": ops, "meta": {"kind": "chunked", "ns": picks}})
+    # every other route into a chunked SendBody (lib.send_context)
+    for route in ["added", "despite-added", "host", "expect-continued", "expect-giveup", "expect-partial", "http10", "default-despite", "hop2"]:
+        ops = send_context(rng, "chunked", route)[0] + ["q_is_chunked"]
+        for n in picks:
+            ops.append("q_max_input %s" % num(n))
+            if calc_max_input(n) > 0:
+                ops.append("write_sum z%d %s" % (calc_max_input(n), num(n)))
+            if n > 0:
+                ops.append("write_sum z%d %s" % (n, num(n)))
+        scripts.append({"ops": ops, "meta": {"kind": "chunked", "ns": picks}})
     # sized bodies (the last two: a redirected request given a body and a new length on request; a head written in segments that
     # end right after the last header line -- lines 17 + 14 + 23 bytes)
     sized_starts = [([op_new("POST", "1.1", "http", "a.test", "/", [("content-length", str(t))]), "proceed", "write_head #4096", "proceed", "q_is_chunked"], t)
